@@ -9,6 +9,9 @@ Translated (fail-closed):
   happens, in source order, as a function of (previous flags, new flags, is_retry, queue empty) -> ``worker_decide``
 * the shape of the attempt branch (retry_timeout truthy -> RETRY_PENDING with that timeout, else TRACKED) is checked
 
+* ``TransferManager.manage_user_tracking`` (per user: which track / untrack calls one management cycle makes), that
+  ``_management_job`` runs it unconditionally and that a new session requests a cycle                    -> ``cycle_calls``
+
 Shape-pinned (``FP_*``, pinned values are theorems in C15/Props.v): ``track_user``, ``untrack_user``,
 ``_get_tracked_user_object``, ``_on_tracking_task_done``, ``_on_state_changed``, ``stop``, ``_request_untracking``,
 ``_set_tracking_state`` of UserTrackingManager and ``utils.cancel_task``.
@@ -149,6 +152,44 @@ def translate(src: Path) -> dict:
         raise Refuse(f'_tracking_task: is_retry = {retry_expr}')
     decide = actions(w[4:])
 
+    # ---- TransferManager.manage_user_tracking (the source of the TRANSFER reason) for one user
+    tm_tree = ast.parse((base / 'transfer' / 'manager.py').read_text())
+    tmc = find_class(tm_tree, 'TransferManager')
+    mut = nodoc(find_func(tmc.body, 'manage_user_tracking').body)
+    want_sets = ['unfinished_users = set((transfer.username for transfer in self.get_unfinished_transfers()))',
+                 'finished_users = set((transfer.username for transfer in self.get_finished_transfers()))']
+    if len(mut) != 4 or [norm(x) for x in mut[:2]] != want_sets:
+        raise Refuse('manage_user_tracking: statement structure changed: ' + ' ; '.join(norm(x)[:70] for x in mut))
+    member = {'unfinished_users': 'unf', 'finished_users - unfinished_users': '(fin && negb unf)', 'finished_users': 'fin',
+              'unfinished_users - finished_users': '(unf && negb fin)'}
+    mm = ast.parse((base / 'user' / 'model.py').read_text())
+    names = [x.targets[0].id for x in nodoc(find_class(mm, 'TrackingFlag').body) if isinstance(x, ast.Assign)]
+    calls = []
+    for loop in mut[2:]:
+        if not (isinstance(loop, ast.For) and norm(loop.target) == 'username' and not loop.orelse and len(loop.body) == 1):
+            raise Refuse('manage_user_tracking: loop shape changed')
+        it = norm(loop.iter)
+        if it not in member:
+            raise Refuse(f'manage_user_tracking: iterates over {it}')
+        b0 = norm(loop.body[0])
+        ok = False
+        for op, tag in (('track_user', 'true'), ('untrack_user', 'false')):
+            for i, nm in enumerate(names):
+                if b0 == f'await self._user_manager.{op}(username, TrackingFlag.{nm})':
+                    calls.append(f'(if {member[it]} then [({tag}, {1 << i})] else [])')
+                    ok = True
+        if not ok:
+            raise Refuse(f'manage_user_tracking: loop body changed: {b0}')
+    mj = [norm(x) for x in ast.walk(find_func(tmc.body, '_management_job')) if isinstance(x, ast.Await)]
+    if 'await self.manage_user_tracking()' not in mj:
+        raise Refuse('_management_job no longer runs manage_user_tracking')
+    mjf = find_func(tmc.body, '_management_job')
+    if not any(norm(x) == 'await self.manage_user_tracking()' for x in nodoc(mjf.body)):
+        raise Refuse('_management_job: manage_user_tracking is not an unconditional top-level statement')
+    si = [norm(x) for x in nodoc(find_func(tmc.body, '_on_session_initialized').body)]
+    if si != ['self.request_management_cycle(_RequestFlag.TRANSFER_CHANGE)']:
+        raise Refuse('_on_session_initialized of the transfer manager changed: ' + ' ; '.join(si))
+
     ut = ast.parse((base / 'utils.py').read_text())
     out = ['(* GENERATED by /verif/translate/tr_tracking.py from src/aioslsk/user/manager.py -- do not edit *)\n',
            'From Coq Require Import ZArith List Bool Arith.\nImport ListNotations.\n\n',
@@ -158,6 +199,10 @@ def translate(src: Path) -> dict:
            '(* what the worker does with a dequeued request, in source order *)\n',
            'Inductive wact := WCancelRetry | WCancelRetryAwait | WRemoveUser | WSetUntracked | WExitDrop | WExit | WAttempt.\n',
            f'Definition worker_decide (prev new : nat) (retry qempty : bool) : list wact :=\n  {decide}.\n\n',
+           '(* TransferManager.manage_user_tracking seen from one user: the calls (true = track_user, false = untrack_user; flag) of one\n'
+           '   management cycle when the user has an unfinished transfer (unf) / a finalized one (fin); the cycle runs in every\n'
+           '   _management_job and is requested when a session is initialized (both checked by the translator) *)\n',
+           'Definition cycle_calls (unf fin : bool) : list (bool * nat) :=\n  ' + ' ++ '.join(calls) + '.\n\n',
            '(* fingerprints of the functions the model abstracts by hand *)\n']
     for name in ('track_user', 'untrack_user', '_get_tracked_user_object', '_on_tracking_task_done', '_on_state_changed', 'stop',
                  '_request_untracking', '_set_tracking_state'):
